@@ -77,6 +77,21 @@ def gen_cases(tier, seed):
                     g[k // 8] ^= 1 << (k % 8)
             frames.append(g)
     cases += ["verify " + hx(f) for f in frames]
+    # a receive buffer that is re-used: equally long frames verified one after the other in the SAME block - a valid frame, the
+    # same frame with one bit flipped in place, the valid one again, another valid frame of that length, a corrupted FCS
+    n_seq = 0
+    for _ in range(60 if q else 2000):
+        L = rng.choice([1, 2, 10, 24, 60, 300])
+        body = bytes(rng.randrange(256) for _ in range(L))
+        good = body + fcs(body)
+        flip = bytearray(good); k = rng.randrange(len(good) * 8); flip[k // 8] ^= 1 << (k % 8)
+        other_body = bytes(rng.randrange(256) for _ in range(L))
+        other = other_body + fcs(other_body)
+        badfcs = bytearray(other); badfcs[-1 - rng.randrange(4)] ^= 1 << rng.randrange(8)
+        seq = [good, bytes(flip), good, other, bytes(badfcs), good]
+        if rng.random() < 0.5:
+            seq = [bytes(flip)] + seq
+        cases.append("verifyseq " + " ".join(hx(x) for x in seq)); n_seq += 1
     return cases, {"small_exhaustive": n_small, "single_bit_basis": n_basis, "random_messages": nr,
                    "verify_frames": len(frames), "single_bit_flips": n_flip, "total": len(cases)}
 
@@ -85,6 +100,16 @@ def judge(case, impl, model, spec=None):
     if crashed(impl):
         return (crash_sig(impl), "the library crashed or hung on " + case[:200])
     t = case.split()
+    if t[0] == "verifyseq":
+        got = impl.split()[1:]
+        for i, h in enumerate(t[1:]):
+            fr = bytes.fromhex(h)
+            ok = len(fr) >= 4 and fcs(fr[:-4]) == fr[-4:]
+            want = "%d/%08x" % (1 if ok else 0, (zlib.crc32(fr[:-4]) & 0xFFFFFFFF) if len(fr) >= 4 else 0)
+            if i >= len(got) or got[i] != want:
+                return ("verify:reused-buffer", "frame %d of a sequence verified in one re-used buffer: library says '%s', expected '%s' (%s)"
+                        % (i, got[i] if i < len(got) else "-", want, "valid frame" if ok else "corrupted frame"))
+        return None
     b = bytes.fromhex(t[1]) if t[1] != "-" else b""
     if t[0] == "crc":
         want = "crc %d %s" % (zlib.crc32(b) & 0xFFFFFFFF, fcs(b).hex())
